@@ -168,3 +168,88 @@ func runR06_5(c *kit.Ctx) {
 	}
 	c.Present("R06.5", "torrent/possibly-nil Info dereferences", 0, "%d dereferences of a possibly-nil *metainfo.Info examined", n)
 }
+
+func init() { registerExtra("C17", runR17_5caps) }
+
+// ---- R17.5 (continued) address list and read cache stay within their caps
+func runR17_5caps(c *kit.Ctx) {
+	k := newKeyer()
+	// address list: after inserts, every path either shows Len()-maxItems <= 0 or passes removeExcessItems
+	{
+		push := c.Func("internal/addrlist", "(*AddrList).Push")
+		fMax := c.Field("internal/addrlist", "AddrList", "maxItems")
+		remove := c.FuncObj("internal/addrlist", "(*AddrList).removeExcessItems")
+		fl := (&kit.Flow{P: c.Prog, Fn: push, Entry: true,
+			Edge: func(a kit.Atom) bool {
+				z, ok := a.R.IntConst()
+				if !ok || z != 0 || (a.Op != token.LEQ && a.Op != token.LSS) {
+					return false
+				}
+				return a.L.Kind == "binop" && a.L.Op == token.SUB && a.L.Args[1].IsField(fMax)
+			},
+			Instr: func(ins ssa.Instruction, in bool) bool {
+				if kit.CallsAny(ins, remove) {
+					return true
+				}
+				if cc := kit.CallOf(ins); cc != nil && cc.StaticCallee() != nil && cc.StaticCallee().Name() == "ReplaceOrInsert" {
+					return false
+				}
+				return in
+			}}).Solve()
+		c.Check(len(fl.FailingReturns()) == 0, "R17.5", kit.FuncName(push)+"/cap enforced after inserts", push.Pos(),
+			"after inserting addresses every path shows Len()-maxItems <= 0 or passes removeExcessItems", "AddrList.Push can return with more than maxItems stored addresses (the cap test / removeExcessItems is skipped on some path)")
+		// the limit is wired from the configuration
+		newFn := c.FuncObj("internal/addrlist", "New")
+		fCfg := c.Field("torrent", "Config", "MaxPeerAddresses")
+		for _, s := range sortSites(c.CallSites(newFn)) {
+			a := kit.Canon(s.Instr.Common().Args[0])
+			c.Check(a.Strip().IsField(fCfg), "R17.5", k.key(s.Fn, "wire MaxPeerAddresses"), posOf(s.Instr),
+				"address-list cap wired from Config.MaxPeerAddresses", "address-list cap "+a.String()+" is not Config.MaxPeerAddresses")
+		}
+	}
+	// read cache: size grows only after makeRoom and only for values that fit
+	{
+		fSize := c.Field("internal/piececache", "Cache", "size")
+		fMaxSize := c.Field("internal/piececache", "Cache", "maxSize")
+		makeRoom := c.FuncObj("internal/piececache", "(*Cache).makeRoom")
+		n := 0
+		for _, st := range fieldStores(c, fSize) {
+			v := kit.Canon(st.Val)
+			if v.Kind != "binop" || v.Op != token.ADD {
+				continue
+			}
+			n++
+			roomMade := (&kit.Flow{P: c.Prog, Fn: st.Fn, Instr: func(ins ssa.Instruction, in bool) bool {
+				if kit.CallsAny(ins, makeRoom) {
+					return true
+				}
+				if _, ok := kit.StoresField(ins, fSize); ok && ins != ssa.Instruction(st.Store) {
+					return false
+				}
+				return in
+			}}).Solve()
+			fits := c.AtomFlow(st.Fn, func(a kit.Atom) bool {
+				ok, _ := a.UpperBound(func(e *kit.Expr) bool { return e.Strip().Kind == "len" }, func(e *kit.Expr) bool { return e.IsField(fMaxSize) })
+				return ok
+			}, nil)
+			c.Check(roomMade.Before(st.Store) && fits.Before(st.Store), "R17.5", k.key(st.Fn, "cache grows"), posOf(st.Store),
+				"cache size grows only after makeRoom and only for a value with len <= maxSize", "read cache size can grow without evicting first / for a value larger than the cache: the configured read-cache size is exceeded")
+		}
+		c.Floor("R17.5", "read-cache size increments", n, 1)
+		// makeRoom evicts until the new value fits
+		mr := c.Func("internal/piececache", "(*Cache).makeRoom")
+		fitsOnExit := c.AtomFlow(mr, func(a kit.Atom) bool {
+			// !(maxSize-size < len) on the loop exit edge
+			return (a.Op == token.GEQ || a.Op == token.GTR) && a.L.Kind == "binop" && a.L.Op == token.SUB && a.L.Args[0].IsField(fMaxSize) && a.L.Args[1].IsField(fSize)
+		}, nil)
+		c.Check(len(fitsOnExit.FailingReturns()) == 0, "R17.5", kit.FuncName(mr)+"/evicts until it fits", mr.Pos(),
+			"makeRoom returns only when maxSize-size >= len(value)", "makeRoom can return although the new value does not fit")
+		newCache := c.FuncObj("internal/piececache", "New")
+		fCfg := c.Field("torrent", "Config", "ReadCacheSize")
+		for _, s := range sortSites(c.CallSites(newCache)) {
+			a := kit.Canon(s.Instr.Common().Args[0])
+			c.Check(a.Strip().IsField(fCfg), "R17.5", k.key(s.Fn, "wire ReadCacheSize"), posOf(s.Instr),
+				"read-cache size wired from Config.ReadCacheSize", "read-cache size "+a.String()+" is not Config.ReadCacheSize")
+		}
+	}
+}
